@@ -217,7 +217,7 @@ def run(ctx):
   for label, maxl, nm, only_clean in [('c14', 3 if q else 4, 6 if q else 60, 'FALSE'),
                                       ('c14-clean', 4, 40 if q else 600, 'TRUE')]:
     cfg = os.path.join(tlc.WORK, f'{label}.cfg')
-    tlc.write_cfg(cfg, constants={'Class': '"any"', 'MaxLinks': maxl, 'NModels': nm, 'OnlyClean': only_clean},
+    tlc.write_cfg(cfg, constants={'Class': '"any"', 'MaxLinks': maxl, 'NModels': nm, 'OnlyClean': only_clean, 'SeedBase': core.seed_base(ctx, 14)},
                   invariants=['ModelWellFormed', 'StructureConsistent', 'DecisionTable'])
     dump = os.path.join(tlc.WORK, label)
     res = tlc.run('MjcfLoad', cfg, name=label, dump=dump, seed=ctx.seed + 14, expect_ok=True)
